@@ -9,8 +9,8 @@ package ackhandler
 import (
 	"fmt"
 	"reflect"
-	"slices"
 	"sort"
+	"strconv"
 	"strings"
 
 	"github.com/refraction-networking/uquic/internal/monotime"
@@ -189,29 +189,69 @@ func (s *c07Space) ackGenerated(ranges []wire.AckRange) {
 }
 
 func (s *c07Space) key(now monotime.Time) string {
-	var sb strings.Builder
-	fmt.Fprintf(&sb, "%s{T=%d trk=%s drop=%v la=%v", s.name, s.T, s.trk, s.dropped, s.hasLA)
-	for _, r := range s.la {
-		fmt.Fprintf(&sb, "[%d-%d]", r.Smallest, r.Largest)
+	b := make([]byte, 0, 96+2*s.U)
+	b = append(b, s.name...)
+	b = append(b, "{T="...)
+	b = strconv.AppendInt(b, int64(s.T), 10)
+	b = append(b, " trk="...)
+	for _, x := range s.trk {
+		if x {
+			b = append(b, '1')
+		} else {
+			b = append(b, '0')
+		}
 	}
-	sb.WriteString(" pend=")
+	b = append(b, " drop="...)
+	b = strconv.AppendBool(b, s.dropped)
+	b = append(b, " la="...)
+	b = strconv.AppendBool(b, s.hasLA)
+	for _, r := range s.la {
+		b = append(b, '[')
+		b = strconv.AppendInt(b, int64(r.Smallest), 10)
+		b = append(b, '-')
+		b = strconv.AppendInt(b, int64(r.Largest), 10)
+		b = append(b, ']')
+	}
+	b = append(b, " pend="...)
 	for pn := 0; pn < s.U; pn++ {
 		if s.pendT[pn] != 0 && s.trk[pn] {
+			b = strconv.AppendInt(b, int64(pn), 10)
 			if s.timed {
-				fmt.Fprintf(&sb, "%d@%d/%d,", pn, int64(s.pendT[pn]-now), s.pendTrig[pn])
-			} else {
-				fmt.Fprintf(&sb, "%d,", pn)
+				b = append(b, '@')
+				b = strconv.AppendInt(b, int64(s.pendT[pn]-now), 10)
+				b = append(b, '/')
+				b = strconv.AppendInt(b, int64(s.pendTrig[pn]), 10)
 			}
+			b = append(b, ',')
 		}
 	}
 	// only largest-acked values that can still raise the threshold matter
-	sb.WriteString(" fb=")
+	b = append(b, " fb="...)
 	for l := 0; l < s.U; l++ {
 		if s.keepAcked && s.acked[l] && l+1 > s.T {
-			fmt.Fprintf(&sb, "%d,", l+1)
+			b = strconv.AppendInt(b, int64(l+1), 10)
+			b = append(b, ',')
 		}
 	}
-	sb.WriteString("}")
+	b = append(b, '}')
+	return string(b)
+}
+
+// c07Fmt prints ACK ranges, at most the first 8 of them.
+func c07Fmt(rs []wire.AckRange) string {
+	var sb strings.Builder
+	sb.WriteByte('[')
+	for i, r := range rs {
+		if i == 8 {
+			fmt.Fprintf(&sb, " ... %d ranges, lowest [%d,%d]", len(rs), rs[len(rs)-1].Smallest, rs[len(rs)-1].Largest)
+			break
+		}
+		if i > 0 {
+			sb.WriteByte(' ')
+		}
+		fmt.Fprintf(&sb, "[%d,%d]", r.Smallest, r.Largest)
+	}
+	sb.WriteByte(']')
 	return sb.String()
 }
 
@@ -242,15 +282,15 @@ func c07CheckAck(s *c07Space, ranges []wire.AckRange, what string) *explore.Fail
 		}
 		for pn := r.Smallest; pn <= r.Largest; pn++ {
 			if !s.all.has(int(pn)) {
-				return explore.Failf("ack-covers-unreceived/"+sp, "%s: ACK %v acknowledges packet %d which was never received in this space (received %s)", what, ranges, pn, s.all)
+				return explore.Failf("ack-covers-unreceived/"+sp, "%s: ACK %s acknowledges packet %d which was never received in this space (received %s)", what, c07Fmt(ranges), pn, s.all)
 			}
 			if int(pn) < s.T {
-				return explore.Failf("ack-below-threshold/"+sp, "%s: ACK %v acknowledges packet %d below the forget-below threshold %d", what, ranges, pn, s.T)
+				return explore.Failf("ack-below-threshold/"+sp, "%s: ACK %s acknowledges packet %d below the forget-below threshold %d", what, c07Fmt(ranges), pn, s.T)
 			}
 		}
 	}
 	if m := s.all.max(); m >= s.T && int(ranges[0].Largest) != m {
-		return explore.Failf("ack-misses-largest/"+sp, "%s: ACK %v does not include the largest received packet %d", what, ranges, m)
+		return explore.Failf("ack-misses-largest/"+sp, "%s: ACK %s does not include the largest received packet %d", what, c07Fmt(ranges), m)
 	}
 	for pn := 0; pn < s.U; pn++ {
 		if s.pendT[pn] == 0 || !s.trk[pn] {
@@ -263,7 +303,7 @@ func c07CheckAck(s *c07Space, ranges []wire.AckRange, what string) *explore.Fail
 			}
 		}
 		if !ok {
-			return explore.Failf("ack-misses-pending/"+sp, "%s: ACK %v does not cover the pending ack-eliciting packet %d", what, ranges, pn)
+			return explore.Failf("ack-misses-pending/"+sp, "%s: ACK %s does not cover the pending ack-eliciting packet %d", what, c07Fmt(ranges), pn)
 		}
 	}
 	return nil
@@ -278,22 +318,22 @@ func c07WireRoundTrip(parser *wire.FrameParser, f *wire.AckFrame, enc protocol.E
 	}
 	ft, l, err := parser.ParseType(b, enc)
 	if err != nil {
-		return explore.Failf("ack-wire-type/"+sp, "generated ACK %v does not parse: %v", f.AckRanges, err)
+		return explore.Failf("ack-wire-type/"+sp, "generated ACK %s does not parse: %v", c07Fmt(f.AckRanges), err)
 	}
 	pf, _, err := parser.ParseAckFrame(ft, b[l:], enc, protocol.Version1)
 	if err != nil {
-		return explore.Failf("ack-wire-parse/"+sp, "generated ACK %v does not parse: %v", f.AckRanges, err)
+		return explore.Failf("ack-wire-parse/"+sp, "generated ACK %s does not parse: %v", c07Fmt(f.AckRanges), err)
 	}
 	want := f.AckRanges
 	if len(want) > protocol.MaxNumAckRanges {
 		want = want[:protocol.MaxNumAckRanges]
 	}
 	if len(pf.AckRanges) != len(want) {
-		return explore.Failf("ack-wire-differs/"+sp, "peer decodes %v from generated ACK %v", pf.AckRanges, f.AckRanges)
+		return explore.Failf("ack-wire-differs/"+sp, "peer decodes %s from generated ACK %s", c07Fmt(pf.AckRanges), c07Fmt(f.AckRanges))
 	}
 	for i := range want {
 		if pf.AckRanges[i] != want[i] {
-			return explore.Failf("ack-wire-differs/"+sp, "peer decodes %v from generated ACK %v", pf.AckRanges, f.AckRanges)
+			return explore.Failf("ack-wire-differs/"+sp, "peer decodes %s from generated ACK %s", c07Fmt(pf.AckRanges), c07Fmt(f.AckRanges))
 		}
 	}
 	return nil
@@ -306,26 +346,38 @@ func c07WireRoundTrip(parser *wire.FrameParser, f *wire.AckFrame, enc protocol.E
 // for the non-destructive probes "would GetAckFrame return an ACK now / at alarm time?".
 // It is written out by hand because it runs on every step; c07CheckCloneShape verifies by
 // reflection that it follows every reference the handler's types contain.
-func c07CloneHandler(h *ReceivedPacketHandler) *ReceivedPacketHandler {
-	c := *h
-	c.initialPackets = c07CloneTracker(h.initialPackets)
-	c.handshakePackets = c07CloneTracker(h.handshakePackets)
-	c.appDataPackets.receivedPacketTracker = *c07CloneTracker(&h.appDataPackets.receivedPacketTracker)
-	return &c
+func c07CloneHandler(sc *c07Scratch, h *ReceivedPacketHandler) *ReceivedPacketHandler {
+	sc.h = *h
+	sc.h.initialPackets = sc.cloneTracker(0, &sc.trk[0], h.initialPackets)
+	sc.h.handshakePackets = sc.cloneTracker(1, &sc.trk[1], h.handshakePackets)
+	sc.cloneTracker(2, &sc.h.appDataPackets.receivedPacketTracker, &h.appDataPackets.receivedPacketTracker)
+	return &sc.h
 }
 
-func c07CloneTracker(t *receivedPacketTracker) *receivedPacketTracker {
-	if t == nil {
+// c07Scratch is the per-instance memory the copies live in (reused by every probe; a probe's
+// result is only looked at before the next probe).
+type c07Scratch struct {
+	h      ReceivedPacketHandler
+	trk    [2]receivedPacketTracker
+	la     [3]wire.AckFrame
+	ranges [3][]interval
+	acks   [3][]wire.AckRange
+}
+
+func (sc *c07Scratch) cloneTracker(i int, dst, src *receivedPacketTracker) *receivedPacketTracker {
+	if src == nil {
 		return nil
 	}
-	c := *t
-	c.packetHistory.ranges = slices.Clone(t.packetHistory.ranges)
-	if t.lastAck != nil {
-		la := *t.lastAck
-		la.AckRanges = slices.Clone(t.lastAck.AckRanges)
-		c.lastAck = &la
+	*dst = *src
+	sc.ranges[i] = append(sc.ranges[i][:0], src.packetHistory.ranges...)
+	dst.packetHistory.ranges = sc.ranges[i]
+	if src.lastAck != nil {
+		sc.la[i] = *src.lastAck
+		sc.acks[i] = append(sc.acks[i][:0], src.lastAck.AckRanges...)
+		sc.la[i].AckRanges = sc.acks[i]
+		dst.lastAck = &sc.la[i]
 	}
-	return &c
+	return dst
 }
 
 // c07CheckCloneShape lists every reference-like field reachable from ReceivedPacketHandler
